@@ -675,3 +675,8 @@ M('R27-scenario-keyed-memo', 'R27',
    ('dro.py', "                    ew_constr = ew_constr.forall(support)\n",
     "                    if s not in self.sup_memo:\n                        self.sup_memo[s] = ew_constr.forall(support).support\n                    ew_constr.support = self.sup_memo[s]\n")],
   'under-keyed memo')
+M('R39-compact-dual-without-unit-test', 'R39',
+  [('socp.py', "            if (len(eye_block.data) + 1 == len(eye_block.indptr) and\n                    (eye_block.data == 1).all()):\n",
+    "            if len(eye_block.data) + 1 == len(eye_block.indptr):\n")], 'compact SOC dual')          # F28 re-introduced
+T('R39-unit-test-np-all', 'R39',
+  [('socp.py', "                    (eye_block.data == 1).all()):\n", "                    np.all(eye_block.data == 1)):\n")])
